@@ -63,7 +63,9 @@ where
         where
             A: serde::de::SeqAccess<'d>,
         {
-            let mut array = Vec::with_capacity(seq.size_hint().unwrap_or_default());
+            // The size hint comes straight from the (untrusted) input, do not let it
+            // dictate how much memory gets reserved up front.
+            let mut array = Vec::with_capacity(seq.size_hint().unwrap_or_default().min(1024));
             while let Some(elem) = seq.next_element::<PossiblyUnknown<T>>()? {
                 if let PossiblyUnknown::Some(elem) = elem {
                     array.push(elem)
